@@ -29,10 +29,12 @@ pub fn max_i32(a: i32, b: i32) -> (r: i32)
 //@end
 
 // ---- reference tables (frozen from the v0.6.2 specification; NOT read from /repo)
+#[allow(non_snake_case)]
 pub open spec fn FQ(o: int) -> int {
-    if o == 0 { 4 } else if o == 1 { 2 } else if o == 2 { 3 } else if o == 3 { 2 }
-    else if o == 4 { 0 } else if o == 5 { 4 } else if o == 6 { 3 } else if o == 7 { 2 }
-    else if o == 8 { 2 } else if o == 9 { 0 } else if o == 10 { 3 } else { 0 }
+    // first quintant per face id (face ids in curve order), reference release v0.6.2
+    if o == 0 { 4 } else if o == 1 { 2 } else if o == 2 { 3 } else if o == 3 { 0 }
+    else if o == 4 { 2 } else if o == 5 { 4 } else if o == 6 { 2 } else if o == 7 { 2 }
+    else if o == 8 { 3 } else if o == 9 { 0 } else if o == 10 { 3 } else { 0 }
 }
 
 // R6: get_origins() is a contract boundary.  The contract is discharged on the real
